@@ -150,6 +150,25 @@ def geo (op : String) (l : List Rat) : Option String := do
     | _ => none
   | _ => none
 
+/-- `_circumradius`² through the branch named by the harness (as read from the real region) -/
+def circsq (br : String) (l : List Rat) : Option String := do
+  match br with
+  | "scaled" =>
+    match l with
+    | n :: l => let (sv, _) ← v3s (← natOf n) l; pure (showRat (circumradiusSq fallbackCenter (.scaled sv) V3.zero []))
+    | _ => none
+  | "shape" =>
+    let (d, l) ← v3 l
+    match l with
+    | n :: l => let (uv, _) ← v3s (← natOf n) l; pure (showRat (circumradiusSq fallbackCenter (.shape d uv) V3.zero []))
+    | _ => none
+  | "fallback" =>
+    let (p, l) ← v3 l
+    match l with
+    | n :: l => let (v, _) ← v3s (← natOf n) l; pure (showRat (circumradiusSq fallbackCenter .fallback p v))
+    | _ => none
+  | _ => none
+
 def handle : List String → String
   | "isect" :: ws => (isect ws).getD "bad-op"
   | "cont" :: ws => (cont ws).getD "bad-op"
@@ -164,13 +183,29 @@ def handle : List String → String
     | some b, some p, some r => bit (isPlanarBox planarCfg b p r)
     | _, _, _ => "bad-op"
   | "obj" :: ws => (objI ws).getD "bad-op"
-  | ["mdist", sp, op, zs, zo, pd, vd] =>
-    match pBool sp, pBool op, parseRat zs, parseRat zo, parseRat pd, parseRat vd with
-    | some sp, some op, some zs, some zo, some pd, some vd =>
-      let r := minimumDistance distCfg
-        { selfPlanar := sp, otherPlanar := op, zS := zs, zO := zo, polyDist := pd, volumeDist := vd }
-      s!"{showRat r.1} {if r.2 then "fast" else "volume"}"
-    | _, _, _, _, _, _ => "bad-op"
+  | ["mdist", sp, op, zs, zo, pd, fd, vi] =>
+    match pBool sp, pBool op, parseRat zs, parseRat zo, parseRat pd, parseRat fd, pBool vi with
+    | some sp, some op, some zs, some zo, some pd, some fd, some vi =>
+      let r := minimumDistance distCfg volDistCfg
+        { selfPlanar := sp, otherPlanar := op, zS := zs, zO := zo, polyDist := pd, fclDist := fd, volIntersects := vi }
+      s!"{showRat r.1} {r.2.name}"
+    | _, _, _, _, _, _, _ => "bad-op"
+  | ["vmdist", fd, vi] =>
+    match parseRat fd, pBool vi with
+    | some fd, some vi =>
+      let r := volumeMinimumDistance volDistCfg { fclDist := fd, volIntersects := vi }
+      s!"{showRat r.1} {if r.2 then "nested" else "fcl"}"
+    | _, _ => "bad-op"
+  | ["convex", ov, tc, vol, hv] =>
+    let ovr : Option (Option Bool) := if ov == "none" then some none else (pBool ov).map some
+    match ovr, pBool tc, parseRat vol, parseRat hv with
+    | some ovr, some tc, some vol, some hv =>
+      bit (isConvexFlag convexCfg { override := ovr, trimeshConvex := tc, vol := vol, hullVol := hv })
+    | _, _, _, _ => "bad-op"
+  | "circsq" :: br :: ws =>
+    match pRats ws with
+    | some l => (circsq br l).getD "bad-op"
+    | none => "bad-op"
   | ["center"] => (match fallbackCenter with | .origin => "origin" | .position => "position")
   | op :: ws =>
     match pRats ws with
